@@ -290,6 +290,14 @@ class Parser:
     def p_import(self, p: P) -> None:
         # Get filepath to import.
         importing_path = p[len(p) - 2]
+        if "\x00" in importing_path:
+            # The os refuses such a path with a ValueError.
+            raise GrammarError(
+                message="Invalid import path, contains a null character.",
+                filepath=self.current_filepath(),
+                token=importing_path.replace("\x00", "\\0"),
+                lineno=p.lineno(2),
+            )
         filepath = self._get_child_filepath(importing_path)
 
         # Check if this filepath already in parsing.
